@@ -85,6 +85,22 @@ struct C12 : Prop {
 		J phs = J::arr();
 		int rounds = (int) r.range(1, thorough ? 4 : 2);
 		for (int rd = 0; rd < rounds; rd++) {
+			// normal mode, one round in six starts with a "capacity dance": the interface announces a large packet capacity, the application batches
+			// unanswered messages without flushing, the interface announces a smaller capacity than what is batched (restart / replaced interface /
+			// damaged byte that passes the CRC): the receiver must come back from the handler
+			if (normal && r.chance(170)) {
+				J ph = J::obj(); J ev = J::arr();
+				auto cap = [&](int at, int v) { ref::Msg m; m.seq = 0; m.type = MSG_PKT_CAPACITY; m.data = {(uint8_t) v}; J e = J::obj(); e.set("at_us", at); e.set("raw", hex_of(ref::frame_msgs({m}))); e.set("inj", "capacity-change"); ev.push(e); };
+				cap(0, (int) r.range(100, 255)); cap(15000, (int) r.range(0, 70));
+				if (r.coin()) cap(25000, (int) r.range(64, 255));
+				ph.set("bus", ev); ph.set("adv", false);
+				J ops = J::arr();
+				{ J sl = J::obj(); sl.set("op", "sleep"); sl.set("us", 10000); ops.push(sl); }
+				for (int i = 0, no = (int) r.range(8, 30); i < no; i++) { J o = J::obj(); o.set("op", "ll"); o.set("fn", "bm_mirror_occ"); o.set("node", pc::jnode3(addrs[r.below(addrs.size())])); char h[4]; snprintf(h, sizeof h, "%02x", (unsigned) r.below(128)); o.set("a", h); ops.push(o); }
+				J tasks = J::arr(); tasks.push(ops); ph.set("tasks", tasks);
+				J post = J::arr(); post.push("quiesce_noflush"); ph.set("post", post);
+				phs.push(ph);
+			}
 			J ph = J::obj(); J ev = J::arr();
 			int n = (int) r.range(1, thorough ? 25 : 12);
 			int t = 0;
@@ -152,7 +168,8 @@ struct C12 : Prop {
 							if (!t.periphs.empty() && r.coin()) { o.set("fn", "set_train_peripheral"); sv.push(t.periphs[r.below(t.periphs.size())].id); sv.push(ids.tos[r.below(ids.tos.size())]); iv.push((int) r.below(2)); }
 							else { o.set("fn", "set_train_speed"); sv.push(ids.tos[r.below(ids.tos.size())]); iv.push((int) r.range(-126, 126)); }
 							o.set("s", sv); o.set("i", iv); ops.push(o);
-						} else if (y < 80) ops.push(api::get_op(r, ids, w));
+						} else if (y < 70) ops.push(api::get_op(r, ids, w));
+						else if (y < 80) { J rd = J::obj(); rd.set("op", r.coin() ? "read_err" : "read"); ops.push(rd); }
 						else { J sl = J::obj(); sl.set("op", "sleep"); sl.set("us", 5000); ops.push(sl); }
 					}
 					tasks.push(ops);
@@ -193,7 +210,12 @@ struct C12 : Prop {
 	bool any_adv = false;
 	uint64_t oversized = 0;
 
+	// the library's GLib containers are watched by the lockset monitor while the session runs (queues are appended by the receiver and read by
+	// the application: one lock must cover both)
+	void on_session_start(Engine &, int, int ret) override { sim::lockset_arm(ret == 0); }
+	void before_stop(Engine &, int) override { sim::lockset_arm(false); }
 	void attach(Engine &e) override {
+		sim::lockset_arm(false); sim::lockset_reset_counters();
 		probes_seen.clear(); any_adv = false; oversized = 0;
 		e.bus.on_delivered = [this](bus::UpFrame &f) { if (f.tag == 901) probe_delivered_time = f.last_read_time; };
 	}
